@@ -60,6 +60,7 @@ InvStructure == WFTree(tree) /\ Dedup(tree)
 InvTT == LET tt == TT(NS, tree) IN
          \A n \in Ids : /\ TSet(NS, tt[n + 1]) = SemRef(NS, tree, n)
                         /\ TOfSet(NS, SemRef(NS, tree, n)) = tt[n + 1]
+                        /\ \A a \in All : TBit(tt[n + 1], a) = Eval(tree, n, a)
                         /\ Sem(NS, tree, n) = SemRef(NS, tree, n)
 
 InvInsert ==
@@ -72,13 +73,13 @@ InvInsert ==
 
 InvAlgebra ==
   LET tt == TT(NS, tree) IN
-  /\ \A n \in Ids : TNot(TNot(tt[n + 1])) = tt[n + 1]
+  /\ \A n \in Ids : TNot(NS, TNot(NS, tt[n + 1])) = tt[n + 1]
   /\ \A n \in Ids : IsJoin(tree[n + 1]) =>
         LET nd == tree[n + 1]
             dual == IF nd.k = "and" THEN "or" ELSE "and"
-            comp == [k \in DOMAIN tt |-> TNot(tt[k])]       \* truth tables of the negated nodes
+            comp == [k \in DOMAIN tt |-> TNot(NS, tt[k])]       \* truth tables of the negated nodes
         IN  \* De Morgan: ~op(xs) = dual(~xs)
-            /\ TNot(tt[n + 1]) = NodeSem(NS, NJoin(dual, nd.a), comp)
+            /\ TNot(NS, tt[n + 1]) = NodeSem(NS, NJoin(dual, nd.a), comp)
             \* identity / absorbing constants, idempotence
             /\ NodeSem(NS, NJoin(nd.k, nd.a \o <<IF nd.k = "and" THEN TrueId ELSE FalseId>>), tt) = tt[n + 1]
             /\ NodeSem(NS, NJoin(nd.k, nd.a \o <<IF nd.k = "and" THEN FalseId ELSE TrueId>>), tt)
@@ -93,12 +94,12 @@ InvAlgebra ==
         /\ RestrictTo(F, G, TRUE) \cap RestrictTo(F, G, FALSE) = {}
         /\ RestrictTo(G, G, b) = (IF b THEN G ELSE {})
         /\ RestrictTo(All \ F, G, b) = C \ RestrictTo(F, G, b)
-        /\ Satisfiable(tt[m + 1], b) = (C # {})
+        /\ Satisfiable(NS, tt[m + 1], b) = (C # {})
         /\ \A k \in Ids :
               LET H == TSet(NS, tt[k + 1]) IN
               /\ RestrictTo(F \cap H, G, b) = RestrictTo(F, G, b) \cap RestrictTo(H, G, b)
               /\ RestrictTo(F \cup H, G, b) = RestrictTo(F, G, b) \cup RestrictTo(H, G, b)
-              /\ AgreeOn(tt[n + 1], tt[k + 1], tt[m + 1], b) = (RestrictTo(F, G, b) = RestrictTo(H, G, b))
+              /\ AgreeOn(NS, tt[n + 1], tt[k + 1], tt[m + 1], b) = (RestrictTo(F, G, b) = RestrictTo(H, G, b))
 
 \* ---------------------------------------------------- reference translations
 RECURSIVE PF(_, _)
@@ -211,6 +212,26 @@ ASSUME LET Lits == [0 .. (NS - 1) -> {0, 1, 2}]
                           (lit[s] = 1 => Bit(a, s)) /\ (lit[s] = 2 => ~Bit(a, s))}
        IN /\ \A lit \in Lits : IsCube(NS, Den(lit))
           /\ \A F \in SUBSET AllA(NS) : (IsCube(NS, F) /\ F # {}) => \E lit \in Lits : Den(lit) = F
+\* multi-limb truth tables (NS = 3 needs a single limb): 6 surfaces = 64 entries = 3 limbs
+ASSUME LET n == 6
+           f == <<0, 5, LNot, LAnd, 3, LOr>>
+           fc == <<0, 1, 2, 3, 4, 5>>
+           r == PostfixRunSem(n, f, fc) IN
+       /\ NL(n) = 3 /\ Len(TFull(n)) = 3 /\ TFull(n)[3] = 15 /\ NL(5) = 2 /\ NL(10) = 35 /\ NL(4) = 1
+       /\ \A s \in 0 .. (n - 1) : \A a \in AllA(n) :
+             /\ TBit(TSurf(n, s), a) = Bit(a, s)
+             /\ TBit(TNot(n, TSurf(n, s)), a) = ~Bit(a, s)
+             /\ TBit(TFull(n), a) /\ ~TBit(TZero(n), a)
+       /\ \A s, t \in 0 .. (n - 1) : \A a \in AllA(n) :
+             /\ TBit(TAnd(TSurf(n, s), TSurf(n, t)), a) = (Bit(a, s) /\ Bit(a, t))
+             /\ TBit(TOr(TSurf(n, s), TNot(n, TSurf(n, t))), a) = (Bit(a, s) \/ ~Bit(a, t))
+       /\ \A s \in 0 .. (n - 1) : TOfSet(n, TSet(n, TSurf(n, s))) = TSurf(n, s)
+       /\ IsCubeT(n, TAnd(TSurf(n, 5), TNot(n, TSurf(n, 0)))) /\ ~IsCubeT(n, TOr(TSurf(n, 5), TSurf(n, 0)))
+       /\ IsCubeT(n, TZero(n)) /\ IsCubeT(n, TFull(n))
+       /\ PostfixWF(r) /\ \A a \in AllA(n) : TBit(r.st[1], a) = EvalPostfix(f, fc, a)
+       /\ AgreeOn(n, TSurf(n, 1), TAnd(TSurf(n, 1), TSurf(n, 4)), TSurf(n, 4), TRUE)
+       /\ ~AgreeOn(n, TSurf(n, 1), TAnd(TSurf(n, 1), TSurf(n, 4)), TSurf(n, 4), FALSE)
+       /\ Satisfiable(n, TSurf(n, 2), FALSE) /\ ~Satisfiable(n, TFull(n), FALSE) /\ ~Satisfiable(n, TZero(n), TRUE)
 \* the sketch of DESIGN.md Appendix A.4
 ASSUME LET T == <<NTrue, NNot(0), NSurf(0), NSurf(1), NNot(3), NJoin("and", <<2, 4>>), NJoin("or", <<2, 3>>)>> IN
        /\ \A a \in AllA(2) : EvalPostfix(<<0, 1, LNot, LAnd>>, <<0, 1>>, a) = Eval(T, 5, a)
